@@ -5,6 +5,7 @@
 package c14
 
 import (
+	"github.com/goatcms/goatcore/app"
 	"os"
 	"encoding/json"
 	"fmt"
@@ -30,6 +31,7 @@ type TaskSpec struct {
 	WLock string   `json:"wlock,omitempty"`
 	RLock string   `json:"rlock,omitempty"`
 	One   bool     `json:"one_command,omitempty"` // the body is a single command
+	Separated bool `json:"separated_scope,omitempty"` // submitted in a scope with its own context (as pip:try bodies are)
 	Sandbox string `json:"sandbox,omitempty"`     // "" = self | retfail:<id> | retok:<id> (pipx: failure reported only by Run's return value)
 }
 
@@ -103,7 +105,14 @@ func build(sp Spec, o *obs) func() {
 					lock[r] = commservices.LockR
 				}
 			}
-			pip := w.Pip(t.Name, body(t), t.Wait, lock, nil)
+			var tscope app.Scope
+			if t.Separated {
+				if tscope, err = w.Separated(); err != nil {
+					o.infra = err.Error()
+					return
+				}
+			}
+			pip := w.Pip(t.Name, body(t), t.Wait, lock, tscope)
 			if t.Sandbox != "" {
 				pip.Sandbox = t.Sandbox
 			}
@@ -370,6 +379,14 @@ func programs(thorough bool) []Spec {
 	l2.WLock, l2.RLock = "", "res"
 	ps = append(ps, Spec{Tasks: []TaskSpec{l1, l2}, Bound: b})
 	ps = append(ps, LockWaitPrograms(thorough)...)
+	// tasks living in a scope with its own context (their failure does not reach the root scope)
+	for _, f1 := range []string{"return1", "append1"} {
+		sa := fail(t("a"), f1)
+		sa.Separated = true
+		sb := t("b", "a")
+		sb.Separated = true
+		ps = append(ps, Spec{Tasks: []TaskSpec{sa, t("b")}, Bound: b}, Spec{Tasks: []TaskSpec{sa, sb}, Bound: b + 1}, Spec{Tasks: []TaskSpec{t("c"), sa}, Bound: b})
+	}
 	// tasks in a sandbox that reports success / failure only through its return value
 	rf, rk := t("a"), t("a")
 	rf.Sandbox, rk.Sandbox = "retfail:a.sb", "retok:a.sb"
@@ -420,6 +437,12 @@ func MkProgramFor(prop string, sp Spec) *explore.Program {
 		if t.Nest != "" {
 			s += "+nest"
 		}
+		if t.Separated {
+			s += "~sep"
+		}
+		if t.Sandbox != "" {
+			s += "@" + t.Sandbox
+		}
 		if t.WLock != "" {
 			s += "#w:" + t.WLock
 		}
@@ -458,6 +481,13 @@ func run(c *fw.Ctx) {
 			c.NotExhaustive("deadline")
 			break
 		}
+		if os.Getenv("VCHECK_DETERMINISM") != "" {
+			p := mkProgram(sp)
+			if d := explore.Determinism(p.Opt, p.Body, 6); d != "" {
+				c.SetAdd("determinism", p.Name+": "+d)
+			}
+			continue
+		}
 		if !explore.RunProgram(c, mkProgram(sp)) && c.R.InfraError != "" {
 			return
 		}
@@ -480,7 +510,7 @@ func replay(wj json.RawMessage) (*fw.Violation, error) {
 
 func init() {
 	fw.Register(&fw.Check{ID: "C14", Level: "model_checking",
-		Rule: "programs = task graphs on 2-3 tasks (all wait shapes incl. diamonds and chains) x failing command variants (first/second command returns an error; a command appends an error to its scope) x body durations x a submission waiting for an unknown task, for itself, or for a task submitted later x nested pip:run from inside a body x write/read resource locks (also combined with wait lists) x a sandbox that reports its outcome only through its return value; a mock application (terminal, common, open-container and pipeline modules) is bootstrapped per execution, tasks are submitted through the real Runner and run in the real self sandbox (terminal read-execute loop) with probe commands; every schedule with <= bound preemptions (quick: free context switches at blocking points only, chains and two-task graphs; thorough: 1 preemption for chains and two-task graphs, free switches for three-task graphs with concurrent tasks) with a happens-before state cache; oracle on the probe event log. states = distinct schedule traces",
+		Rule: "programs = task graphs on 2-3 tasks (all wait shapes incl. diamonds and chains) x failing command variants (first/second command returns an error; a command appends an error to its scope) x body durations x a submission waiting for an unknown task, for itself, or for a task submitted later x nested pip:run from inside a body x write/read resource locks (also combined with wait lists) x a sandbox that reports its outcome only through its return value x tasks submitted in a scope with its own context; a mock application (terminal, common, open-container and pipeline modules) is bootstrapped per execution, tasks are submitted through the real Runner and run in the real self sandbox (terminal read-execute loop) with probe commands; every schedule with <= bound preemptions (quick: free context switches at blocking points only, chains and two-task graphs; thorough: 1 preemption for chains and two-task graphs, free switches for three-task graphs with concurrent tasks) with a happens-before state cache; oracle on the probe event log. states = distinct schedule traces",
 		Run: run, Replay: replay,
 		Assumptions: []string{"tasks under one parent scope share its context: after any failure a sibling body may be cut short (prefix), which the statement does not forbid; only order, never-after-failure and the results are judged", "a command that reports its error through AppendError and returns nil does not stop its own loop deterministically (select between done and the next line); only commands that return an error must stop the body"}})
 }
